@@ -10,7 +10,7 @@ from ..session import DYNAMIC, gen_solver, project_velocities, run_solver, solve
 
 PROPERTY = "C17"
 LEVEL = "exploration"
-BUDGET = {"quick": 420, "thorough": 30000}
+BUDGET = {"quick": 420, "thorough": 24000}
 CHUNK = 2
 RUN_TIMEOUT_S = 1500
 MAX_DISCARD_FRACTION = 0.6
